@@ -115,7 +115,23 @@ func VerifC07Lists() {
 
 // VerifC07Helpers: the helpers the codecs are built from.
 func VerifC07Helpers() {
-	switch vrt_Choose("helper", 4) {
+	switch vrt_Choose("helper", 5) {
+	case 4:
+		// concrete GBK text (the real conversion functions run on these): characters whose GBK bytes
+		// are not valid UTF-8, characters whose GBK bytes happen to be valid UTF-8 (lead 0xC2..0xDF,
+		// trail 0x80..0xBF), ASCII mixed in, and a licence plate
+		texts := []string{"测A12345678", "鲁A12345", "豫B0001", "使用学习", "京A·88888", "粤港澳", "abc测试123", "鲁"}
+		u := texts[vrt_Choose("text", len(texts))]
+		g := utils.UTF82GBK([]byte(u))
+		vrt_Assert(len(g) > 0 && len(g) < len(u), "UTF82GBK did not produce double-byte text")
+		back := utils.GBK2UTF8(g)
+		vrt_Assert(string(back) == u, "GBK2UTF8(UTF82GBK(text)) differs from text")
+		vrt_Assert(vrt_BytesEq(utils.UTF82GBK(back), g), "UTF82GBK(GBK2UTF8(bytes)) differs from bytes")
+		// the same text through a message that carries GBK text (0x0100 licence plate)
+		v := &T0x0100{ProvinceID: 31, CityID: 110, ManufacturerID: "12345", TerminalModel: "model", TerminalID: "7654321", PlateColor: 1, LicensePlateNumber: u}
+		var w T0x0100
+		vrt_Assert(w.Parse(c03Msg(0, v.Encode())) == nil && w.LicensePlateNumber == u, "licence plate text does not survive Encode/Parse")
+		vrt_Cover("gbk-chinese", true)
 	case 0:
 		// BCD time: bytes -> text -> bytes
 		b := vrt_Bytes("bcd", 6)
